@@ -1873,6 +1873,8 @@ static int delcols_work (
 			qslp->colnames[j] = qslp->colnames[i];
 			if (qslp->intmarker)
 				qslp->intmarker[j] = qslp->intmarker[i];
+			if (qslp->is_sos_mem)
+				qslp->is_sos_mem[j] = qslp->is_sos_mem[i];
 			j++;
 		}
 		else
@@ -2307,6 +2309,14 @@ int EGLPNUM_TYPENAME_ILLlib_addcol (
 	{
 		/* NOTE: If we want to add integer variables, this is the place. */
 		qslp->intmarker[qslp->nstruct] = (char) 0;
+	}
+	if (qslp->is_sos_mem)
+	{
+		/* the SOS membership array of a problem read from a file has one entry
+		 * per structural column; a column added here is in no set */
+		qslp->is_sos_mem = EGrealloc (qslp->is_sos_mem,
+																	sizeof (int) * (qslp->nstruct + 1));
+		qslp->is_sos_mem[qslp->nstruct] = -1;
 	}
 
 	ILL_FAILtrue (qslp->colnames == NULL, "must always be non NULL");
